@@ -510,29 +510,32 @@ def _round(d):
 
 
 def _ill_conditioned(h, vals, cout):
-    """does a relative perturbation of 1e-9 of every input change the concrete run's outputs beyond the validation
-    tolerance?"""
+    """does a tiny relative perturbation of every input (1e-9, 1e-12, 1e-14, either sign) change the concrete run's outputs
+    beyond the validation tolerance, or its shape (another number of instants, an exception)?  Cancellation noise is not
+    monotone in the perturbation, hence several sizes."""
     if cout.status != 'ok':
         return False
-    pert = {k: (v * (1 + 1e-9) if isinstance(v, float) else v) for k, v in vals.items()}
-    try:
-        c2, _ = run_concrete(h, pert)
-    except Exception:  # noqa
-        return False
-    if c2.status != 'ok':
-        return False
-    a, b = flatten(cout.value), flatten(c2.value)
-    if set(a) != set(b):
-        return False
+    a = flatten(cout.value)
     scale = 1.0
     for v in a.values():
         if isinstance(v, (int, float)) and not isinstance(v, bool) and v == v and abs(v) != math.inf:
             scale = max(scale, abs(v))
-    for k in a:
-        x, y = a[k], b[k]
-        if isinstance(x, float) and isinstance(y, float) and x == x and y == y:
-            if not math.isclose(x, y, rel_tol=1e-6, abs_tol=1e-9 * max(1.0, abs(x), scale)):
-                return True
+    for eps in (1e-9, -1e-9, 1e-12, -1e-12, 1e-14, -1e-14):
+        pert = {k: (v * (1 + eps) if isinstance(v, float) else v) for k, v in vals.items()}
+        try:
+            c2, _ = run_concrete(h, pert)
+        except Exception:  # noqa
+            continue
+        if c2.status != 'ok':
+            return True
+        b = flatten(c2.value)
+        if set(a) != set(b):
+            return True
+        for k in a:
+            x, y = a[k], b[k]
+            if isinstance(x, float) and isinstance(y, float) and x == x and y == y:
+                if not math.isclose(x, y, rel_tol=1e-6, abs_tol=1e-9 * max(1.0, abs(x), scale)):
+                    return True
     return False
 
 
